@@ -76,6 +76,7 @@ inductive Ev
   | fireAbort
   | clear
   | shutdown
+  | tmShutdown
   | futSet (c i : Nat)
   | futCancel (c i : Nat)
   | regFut (c : Nat) (isExc : Bool)
@@ -161,9 +162,10 @@ def mkCache (s : St) (p num : Nat) (delay : Option Nat) (cls : Nat) (kinds : Lis
 /-- `TaskManager.cancel_pending_task(cache)`: the entry registered under the cache object is either a waiting timer
     (`task`) or the executing timeout task (`runReg`); it is cancelled and the name forgotten -/
 def cancelPending (s : St) (c : Nat) : St :=
-  if (s.caches c).task.isSome then { s with caches := upd s.caches c { s.caches c with task := none } }
-  else if s.running == some c && s.runReg then { s with runReg := false }
-  else s
+  let s' := { s with caches := upd s.caches c { s.caches c with task := none } }   -- no waiting timer afterwards
+  if (s.caches c).task.isSome then s'
+  else if s.running == some c && s.runReg then { s' with runReg := false }
+  else s'
 
 /-- `register_task(cache, self._on_timeout, cache, delay=…)`: is a live task already registered under the cache? -/
 def nameTaken (s : St) (c : Nat) : Bool := (s.caches c).task.isSome || (s.running == some c && s.runReg)
@@ -235,6 +237,13 @@ def step (s : St) : Ev → St × Reply
                 caches := fun i =>
                   let ch := s.caches i
                   if hasVal i s.ids then { ch.cancelFuts with task := none } else { ch with task := none } }, .done)
+  | .tmShutdown =>
+    -- the inherited `TaskManager.shutdown_task_manager()` called on the request cache object: same `_shutdown` flag,
+    -- every task cancelled — but the identifier table and the managed futures are NOT touched (that is what
+    -- `RequestCache.shutdown()` adds, whenever it is called afterwards)
+    if s.running.isSome then (s, .refused)
+    else if s.shutdown then (s, .done)
+    else ({ s with shutdown := true, runReg := false, caches := fun i => { s.caches i with task := none } }, .done)
   | .futSet c i =>
     if s.n ≤ c then (s, .refused)
     else ({ s with caches := upd s.caches c { s.caches c with futs := modNth Fut.extSet i (s.caches c).futs } }, .done)
@@ -257,8 +266,10 @@ def run (s : St) : List Ev → St × List Reply
 def final (s : St) (evs : List Ev) : St := (run s evs).1
 def trace (s : St) (evs : List Ev) : List Reply := (run s evs).2
 
-/-- cache object c is outstanding: registered with a live timer whose on_timeout has not started -/
-def outstanding (s : St) (c : Nat) : Prop := (s.caches c).task.isSome = true
+/-- cache object c is outstanding: the identifier table holds it under its own identity (its on_timeout has not
+    started and it was not claimed / dropped).  Until a shutdown this is the same as "has a waiting timer"
+    (`Inv`); after `shutdown_task_manager()` the timers are gone while the requests are still claimable. -/
+def outstanding (s : St) (c : Nat) : Prop := lookup (s.caches c).ident s.ids = some c
 
 instance (s : St) (c : Nat) : Decidable (outstanding s c) := by unfold outstanding; infer_instance
 
